@@ -96,7 +96,7 @@ def distinct_elems(lst):
 
 
 class OffsetsLoop(LoopSpec):
-    havoc_types = {'t': 'optreal', 'story_offsets': 'nodedict'}
+    havoc_types = {'*num': 'optreal', '*dict': 'nodedict'}     # the running total and the offsets dict, whatever they are called
 
     def __init__(self, owner):
         self.o = owner
@@ -105,8 +105,9 @@ class OffsetsLoop(LoopSpec):
         P = self.o.prefix(cx)
         lst = cx.a['all_stories']
         k = lp.k
-        tn, tv = as_optreal(lp.st.locals['t'])
-        d = lp.st.locals['story_offsets']
+        from .roles import unique_local
+        tn, tv = as_optreal(lp.st.locals[unique_local(lp, (SInt, SReal))])
+        d = lp.st.locals[unique_local(lp, SDict)]
         keys, vals, nonev = d.sym
         j = z3.Int('j!ol')
         el = lambda jj: lst.elem(jj).t
